@@ -211,7 +211,12 @@ cleanup_pthread:
 void
 qb_log_thread_pause(struct qb_log_target *t)
 {
-	if (t->threaded && logt_wthread_lock != NULL) {
+	/*
+	 * wait for the logging thread whenever there is one: it may still be
+	 * inside this target's logger although t->threaded was just cleared
+	 */
+	(void)t;
+	if (logt_wthread_lock != NULL) {
 		QB_VERIF_POINT(QB_VP_LOGT_C_PAUSE, logt_wthread_lock, t->pos, 0);
 		(void)qb_thread_lock(logt_wthread_lock);
 		QB_VERIF_POINT(QB_VP_LOGT_C_PAUSED, logt_wthread_lock, t->pos, 0);
@@ -221,7 +226,8 @@ qb_log_thread_pause(struct qb_log_target *t)
 void
 qb_log_thread_resume(struct qb_log_target *t)
 {
-	if (t->threaded && logt_wthread_lock != NULL) {
+	(void)t;
+	if (logt_wthread_lock != NULL) {
 		QB_VERIF_POINT(QB_VP_LOGT_C_RESUME, logt_wthread_lock, t->pos, 0);
 		(void)qb_thread_unlock(logt_wthread_lock);
 	}
